@@ -126,9 +126,13 @@ Fail(op, via, e) ==
                  /\ cutoff' = TRUE
                  /\ UNCHANGED <<accepted, connected, txq, wire, rxn>>
                  /\ res' = IF via = "direct" THEN (IF op = "send" THEN Num(0) ELSE EmptyBytes) ELSE None
-            [] k = "loss" /\ op \in {"connect", "handshake"} ->   \* not connected, try again later; no exception
+            [] k = "loss" /\ op = "connect" ->   \* not connected, try again later; no exception
                  /\ connected' = FALSE
                  /\ UNCHANGED <<accepted, cutoff, txq, wire, rxn>>     \* accepted, cutoff: not specified, not compared
+                 /\ res' = Bool(FALSE)
+            [] k = "loss" /\ op = "handshake" ->   \* the connection is marked cut off; not connected; no exception
+                 /\ connected' = FALSE /\ cutoff' = TRUE
+                 /\ UNCHANGED <<accepted, txq, wire, rxn>>             \* accepted: not specified, not compared
                  /\ res' = Bool(FALSE)
             [] k = "loss" /\ op \in {"sendto", "recvfrom"} ->     \* retryable: the packet stays queued / nothing is reported
                  /\ UNCHANGED <<accepted, connected, cutoff, txq, wire, rxn>>
@@ -162,7 +166,7 @@ Spec == Init /\ [][Next]_vars
 (* ---------------- the property, as statements about the table ---------------- *)
 LastKind == Kind(act.op, act.via, act.e)
 \* connection loss on a stream transport: cut off, no data, no exception
-LossCutsOff == (act.a = "Fail" /\ LastKind = "loss" /\ act.op \in {"send", "recv"}) =>
+LossCutsOff == (act.a = "Fail" /\ LastKind = "loss" /\ act.op \in {"send", "recv", "handshake"}) =>
                    (cutoff /\ res.t # "raise" /\ (res.t \in {"int", "bytes"} => res.v = 0))
 \* connection loss never raises, whatever the operation
 LossNeverRaises == (act.a = "Fail" /\ LastKind = "loss") => res.t # "raise"
